@@ -249,7 +249,9 @@ pub fn make_knobs(profile: Profile, rng: &mut Rng, thorough: bool) -> Knobs {
             k.clock_jump_pct = pct(rng, 4, 2, 8);
         }
         Profile::TwoHop => {
-            k.n_pools = 2 + rng.below(2) as usize;
+            k.n_pools = 3;
+            k.n_lps = 3;
+            k.spacing_choices = vec![1, 8, 64, 64, 128, 32768];
         }
         _ => {}
     }
